@@ -362,11 +362,17 @@ def part_b_case(ctx, i, rng):
     fail_kind = rng.choice(["missing-path", "bad-value"])
     expected = {}
     prefix = ""
+    append_key = False
     for k, d in enumerate(dirs):
         doc = {f"n{k}": k + 1, f"f{k}": "data/target.txt"}
         expected[prefix + f"f{k}"] = os.path.join(d, "data", "target.txt")
         r = rng.random()
-        if r < 0.35:
+        if k == 0 and r < 0.2:
+            # the list is given in its append spelling: the paths still belong to this config file
+            doc["fs0+"] = ["data/target.txt", "./data/../data/target.txt"]
+            expected["fs0"] = [os.path.join(d, "data", "target.txt")] * 2
+            append_key = True
+        elif r < 0.35:
             doc[f"fs{k}"] = ["data/target.txt", "./data/../data/target.txt"]
             expected[prefix + f"fs{k}"] = [os.path.join(d, "data", "target.txt")] * 2
         elif r < 0.7:
@@ -393,6 +399,14 @@ def part_b_case(ctx, i, rng):
             yaml.safe_dump(doc, f, sort_keys=False)
         prefix += f"l{k + 1}."
     entry = os.path.join(dirs[0], "c.yaml")
+    symlinked = rng.random() < 0.3
+    if symlinked:
+        # the first config file is reached through a symbolic link to its directory
+        os.symlink(dirs[0], os.path.join(root, "link0"))
+        entry = os.path.join(root, "link0", "c.yaml")
+        ctx.count("st.nested.config_dir_through_symlink")
+    if append_key:
+        ctx.count("st.nested.append_key_with_relative_paths")
     how = rng.choice(["--cfg abs", "--cfg rel", "parse_path abs", "parse_path rel", "default_config_files"])
     old = os.getcwd()
     os.chdir(elsewhere)
@@ -416,7 +430,7 @@ def part_b_case(ctx, i, rng):
     ctx.count("mon.nested_config_parses")
     ctx.count(f"st.nested.depth{depth}")
     ctx.count(f"st.nested.{'failing' if fail_at is not None else 'valid'}")
-    w = dict(depth=depth, how=how, fail_at=fail_at, fail_kind=fail_kind if fail_at is not None else None, dirs=[os.path.relpath(d, root) for d in dirs], outcome=o.brief())
+    w = dict(depth=depth, how=how, fail_at=fail_at, fail_kind=fail_kind if fail_at is not None else None, dirs=[os.path.relpath(d, root) for d in dirs], outcome=o.brief(), through_symlink=symlinked, append_key=append_key)
     if after != before:
         ctx.violation("relative", f"cwd-not-restored/{'after-failure' if not o.accepted else 'after-success'}", dict(w, before=before, after=after))
         return
@@ -425,7 +439,7 @@ def part_b_case(ctx, i, rng):
             ctx.violation("relative", f"nested-config-with-{fail_kind}-accepted/depth{fail_at}", w)
         return
     if not o.accepted:
-        ctx.violation("relative", f"valid-nested-configs-rejected/{how.split()[0]}", w)
+        ctx.violation("relative", f"valid-nested-configs-rejected/{how.split()[0]}{'/with-append-key' if append_key else ''}", w)
         return
     cfg = o.value
     for key, exp in expected.items():
@@ -433,7 +447,7 @@ def part_b_case(ctx, i, rng):
         gots = got if isinstance(got, list) else [got]
         exps = exp if isinstance(exp, list) else [exp]
         if got is None or len(gots) != len(exps) or any(os.path.realpath(g.absolute if hasattr(g, "absolute") else str(g)) != os.path.realpath(e) for g, e in zip(gots, exps)):
-            ctx.violation("relative", f"relative-path-not-resolved-against-its-config-file/level{key.count('.')}/{how.split()[0]}", dict(w, key=key, expected=exp, got=short(got)))
+            ctx.violation("relative", f"relative-path-not-resolved-against-its-config-file/level{key.count('.')}/{how.split()[0]}{'/with-append-key' if append_key and key == 'fs0' else ''}", dict(w, key=key, expected=exp, got=short(got)))
             return
         ctx.count("mon.relative_paths_checked")
     if i < 2:
